@@ -128,7 +128,7 @@ def mass_model_history(steps, dt, updates=True):
     return True, "ok"
 
 
-PATTERN = ["proc", "v", "proc", "proc", "z", "v", "proc", "z", "v", "proc"]
+PATTERN = ["proc", "v", "proc", "proc", "z", "v", "proc", "j", "proc", "z", "j", "v", "proc"]  # j: a sensor with two CORRELATED readings
 
 
 def mass_filter():
@@ -144,7 +144,13 @@ def mass_filter():
 
     def build(unit=1.0):
         # `unit`: the same physical filter with every quantity expressed in a unit 1/unit times as large (variances scale by unit^2)
-        return py.compile_ekf(model, {thrust: 1.0 * unit * unit}, {"simple": {"v": tp["v"]}, "alt": {"z": tp["z"]}}, {"simple": {"v": 1.0 * unit * unit}, "alt": {"z": 0.5 * unit * unit}}, config={"innovation_filtering": None})
+        return py.compile_ekf(
+            model,
+            {thrust: 1.0 * unit * unit},
+            {"simple": {"v": tp["v"]}, "alt": {"z": tp["z"]}, "joint": {"jv": tp["v"], "jz": tp["z"] + tp["v"]}},
+            {"simple": {"v": 1.0 * unit * unit}, "alt": {"z": 0.5 * unit * unit}, "joint": {"jv": 1.0 * unit * unit, "jz": 0.5 * unit * unit}},
+            config={"innovation_filtering": None},
+        )
 
     return build
 
@@ -171,6 +177,8 @@ def diffuse_history(seed, prior_scale, unit=1.0, build=None):
                 s, P = ekf.process_model(dtv, s, P, ekf.Control(thrust=u * unit))
             elif op == "v":
                 s, P = ekf.sensor_model(s, P, sensor_key="simple", sensor_reading=ekf.make_reading("simple", v=zv * unit))
+            elif op == "j":
+                s, P = ekf.sensor_model(s, P, sensor_key="joint", sensor_reading=ekf.make_reading("joint", jv=zv * unit, jz=(zv + u) * unit))
             else:
                 s, P = ekf.sensor_model(s, P, sensor_key="alt", sensor_reading=ekf.make_reading("alt", z=zv * unit))
         except AssertionError:
